@@ -56,10 +56,13 @@ def run(ctx):
                     "legacy-explained", workers=4, timeout=2400)
     ctx.rng.shuffle(scripts)
     scripts = scripts[:24 if q else 40]
-    # pre-existing store loaded through the API (row properties) and through an import (column properties)
+    # pre-existing store loaded through the API (row properties), through an import (column properties), or through the API with
+    # recycled ids waiting on the free lists
     for i, s in enumerate(scripts):
-        if i % 2:
+        if i % 3 == 1:
             s[0]["via"] = "import"
+        elif i % 3 == 2:
+            s[0]["via"] = "api-holes"     # same store with non-empty id free lists (two nodes created and deleted again)
     ctx.assume("dedup values in generated scenarios are lower-case, blank-free strings (normalisation = identity) and no value "
                "is both a string and a number; where an existing node and a merged record both carry a key, either value is accepted",
                "truncation at %s byte offset of the real .sgsnap (gzip level 3%s), %d seeded single-byte flips per scenario; "
